@@ -186,7 +186,12 @@ fn projections(cx: &mut Ctx) {
             cx.fail(rule, &format!("{}/{}/lex", rule, ty), &p.rel, &format!("impl Parse for {} lexes with `{}`", ty, l));
         }
         if ty == "Stmt" {
-            let ok = t.contains("letmutstatements=ast::ModModule::parse_tokens(lxr,source_path)?.body;") && t.contains("1=>statements.pop().unwrap(),") && t.contains("offset:statements[1].range().start(),") && t.contains("matchstatements.len(){0=>");
+            // the module body, then by its length: 1 => that statement (with or without an Ok(..) around it),
+            // more => InvalidToken at the second statement's start
+            let ok = t.contains("letmutstatements=ast::ModModule::parse_tokens(lxr,source_path)?.body;")
+                && (t.contains("1=>statements.pop().unwrap(),") || t.contains("1=>Ok(statements.pop().unwrap()),"))
+                && t.contains("offset:statements[1].range().start(),")
+                && t.contains("matchstatements.len(){0=>");
             if ok {
                 cx.ok(rule, "Stmt: the single statement of the module body; a second statement is an error at its start");
             } else {
